@@ -40,12 +40,12 @@ theorem C17_accepted_consistent (c : Ctx) :
     (∀ r b, blobFromRaw r = .value (.ok b) → b.id.length = 32) :=
   ⟨filteredFromRaw_accepted c, metaFromRaw_accepted c, blobFromRaw_ok⟩
 
-/-- For the full block the same holds for the block-level checks (`_partial`: the per-rollup
-    proofs are not among them — next theorem). -/
+/-- For the full block the same holds for the block-level checks (`_partial`: at the pinned commit the
+    per-rollup proofs were not among them — next theorem, finding FB1). -/
 theorem C17_accepted_consistent_full_partial (c : Ctx) (r : BlockRaw) (b : Block)
     (h : fullFromRaw c r = .value (.ok b)) : FullAccepted c b := fullFromRaw_accepted c r b h
 
-/-- With `/verif/proposed_fixes/FB1.diff` (model switch `fullChecksRts`) the full block is
+/-- With the repair `fix:` 52f5ed5 (= `/verif/proposed_fixes/FB1.diff`; model switch `fullChecksRts`, which the driver sets to `true`) the full block is
     consistent too: every per-rollup proof of an accepted block verifies against its root. -/
 theorem C17_accepted_consistent_full_fixed (c : Ctx) (hfix : c.fullChecksRts = true) (r : BlockRaw) (b : Block)
     (h : fullFromRaw c r = .value (.ok b)) :
